@@ -93,9 +93,11 @@ def opOfJson (j : Json) : Except String Op := do
   | "dmut" => pure (.dmut (← pathOfJson j) (← dmutOfJson (← j.getObjVal? "m")))
   | "read" => pure (.read (← pathOfJson j))
   | "touch" => pure .touch
+  | "other" => pure .other
   | "assign" => pure (.assign (← argT j "v"))
   | "flush" => pure .flush
   | "reload" => pure (.reload (← argT j "v"))
+  | "refresh" => pure (.refresh (← argT j "v"))
   | s => throw s!"op {s}"
 
 def strOfErr : Err → String
@@ -103,7 +105,9 @@ def strOfErr : Err → String
 
 def jsonOfSt (s : St) (e : Option Err) : Json :=
   Json.mkObj [("err", match e with | none => .null | some e => .str (strOfErr e)),
-              ("dirty", .bool s.dirty), ("doc", jsonOfT s.doc), ("db", jsonOfT s.db), ("allW", .bool (allW s.doc))]
+              ("dirty", .bool s.dirty), ("doc", jsonOfT s.doc), ("db", jsonOfT s.db), ("allW", .bool (allW s.doc)),
+              ("status", .str (match s.status with
+                | .created => "created" | .loaded => "loaded" | .inserted => "inserted" | .updated => "updated" | .modified => "modified"))]
 
 def runTrace (cfg : Cfg) : List Op → St → List Json
   | [], _ => []
@@ -139,7 +143,9 @@ def handle (j : Json) : Except String Json := do
       let dbv ← argT j "db"
       let ops ← (← argArr j "ops").mapM opOfJson
       let cfg := PonyVerif.Gen.TrackedTable.table
-      let s0 := St.load cfg dbv
+      let vol := (j.getObjValAs? Bool "volatile").toOption.getD false
+      let created := (j.getObjValAs? Bool "created").toOption.getD false
+      let s0 := if created then St.create cfg dbv vol else St.load cfg dbv vol
       pure (Json.mkObj [("init", jsonOfSt s0 none), ("states", .arr (runTrace cfg ops s0).toArray),
                         ("argsW", .arr (ops.map fun o => Json.bool (o.argsW cfg)).toArray)])
   | s => throw s!"unknown op {s}"
